@@ -352,7 +352,7 @@ def op_plan(draw):
 
 @st.composite
 def plans(draw, max_ops=8):
-    return {"v": draw(st.sampled_from([4, 6, 8, 13, 14])), "ops": draw(st.lists(op_plan(), min_size=1, max_size=max_ops))}
+    return {"v": draw(st.sampled_from([4, 6, 8, 13, 14, 15])), "ops": draw(st.lists(op_plan(), min_size=1, max_size=max_ops))}
 
 
 def _worker(ctx, job):
